@@ -353,10 +353,12 @@ static const char* const KIND[] = {"ok", "writer-threw", "framing-unparseable", 
 
 static std::string case_spec(const DataSet& d, const Opt& o) { return d.name + ";sel=" + d.sel + ";opt=" + opt_string(o); }
 static std::vector<std::string> g_history;   // the last cycles of this process, oldest first (for findings that need earlier files)
+static char* g_current = nullptr;            // shared memory: spec of the cycle in progress (read by the parent when a child dies)
 
 static Outcome cycle(const DataSet& d, const Opt& o) {
     ensure_pools();
     g_history.push_back(case_spec(d, o)); if (g_history.size() > 40) g_history.erase(g_history.begin());
+    if (g_current) { strncpy(g_current, g_history.back().c_str(), 8191); g_current[8191] = 0; }
     Outcome out;
     const std::string path = g_dir + "/f." + FMT[o.fmt] + ZIP[o.zip];
     const Expect e = carry(d, o);
@@ -562,7 +564,7 @@ static std::set<std::string> replay_in_fresh_process(const std::string& spec) {
 static bool g_in_replay = false;
 static const char* const AFTER = "/only-after-other-files-in-the-same-process";
 
-// Reports a failing case. The first reports of a class are confirmed by replaying the spec in a fresh process; a failure that
+// Reports a failing case. The first report of a class (per process) is confirmed by replaying the spec in a fresh process; a failure that
 // needs the files processed before it (state kept by the library across files) is reported with those files in its spec.
 static void report(const DataSet& d, const std::vector<size_t>* sel, const Opt& o, const Outcome& r) {
     DataSet t = sel ? select(d, *sel) : d;
@@ -579,7 +581,7 @@ static void report(const DataSet& d, const std::vector<size_t>* sel, const Opt& 
         for (size_t i = first; i < last; ++i) chain += (chain.empty() ? "" : "|") + g_history[i];
         const std::string spec2 = spec + ";after=" + benum::hex(chain);
         int f = 0;
-        if (confirmations[key]++ < 3) {
+        if (confirmations[key]++ < 1) {
             ++C["findings_confirmed_in_fresh_process"];
             if (replay_in_fresh_process(spec).count(key)) f = 0;
             else if (replay_in_fresh_process(spec2).count(key + AFTER)) f = 1;
@@ -923,12 +925,16 @@ static const DataSet& dataset(const std::string& name) {
     return g_cached;
 }
 
-static std::string spec_of(const std::string& name, const Opt& o) { return name + ";sel=all;opt=" + opt_string(o); }
+static DataSet load_case(const std::string& name, const std::string& sel) { DataSet d = make_dataset(name); if (sel != "all") { d = select(d, sel_parse(sel)); d.name = name; } return d; }
 
+// a child died: the case it was working on is in g_current (the exact selection), else the rank's data set as a whole
 static void on_child_death(const std::string& name, const Opt& o, const std::string& what, const std::string& err) {
-    const DataSet& d = dataset(name);
+    std::string spec = name + ";sel=all;opt=" + opt_string(o), sel = "all";
+    if (g_current && g_current[0]) { auto p = split_str(g_current, ';'); if (p.size() >= 3 && p[0] == name && p[2] == "opt=" + opt_string(o) && strlen(g_current) < 8000) { spec = g_current; sel = p[1].substr(4); } }
+    const DataSet d = load_case(name, sel);
     V.report("crash/" + area(o, single_type(d, o)) + "/" + benum::death_class(what, err) + "/" + subject(d, o, true),
-             "options: " + opt_human(o) + " | data set " + name + " | child died: " + what + " | " + err.substr(0, 600), spec_of(name, o));
+             "options: " + opt_human(o) + " | data set " + name + " objects " + sel + " | child died: " + what + " | " + err.substr(0, 600), spec);
+    if (g_current) g_current[0] = 0;
 }
 
 static void run_groups(const Args& a, const std::vector<Group>& groups) {
@@ -1127,23 +1133,31 @@ static void replay(const Args& a, const std::string& spec) {
     benum::Isolation iso; iso.case_timeout_s = 600.0;
     Args one = a; one.shard = 0; one.nshards = 1; one.deadline_s = 1e9;
     g_in_replay = true;
-    auto load = [](const std::string& n, const std::string& s) { DataSet d = make_dataset(n); if (s != "all") { d = select(d, sel_parse(s)); d.name = n; } return d; };
     benum::run_isolated(one, 0, 1,
         [&](uint64_t) {
-            if (!after.empty()) for (const auto& h : split_str(after, '|')) {      // the files this process had handled before
-                auto hp = split_str(h, ';'); if (hp.size() < 3) continue;
-                cycle(load(hp[0], hp[1].substr(4)), opt_parse(hp[2].substr(4)));
+            // a spec with earlier files: the state the library keeps may sit in one of several pool threads, so the chain is
+            // repeated until the failure shows (bounded); without earlier files the case is run once
+            const int attempts = after.empty() ? 1 : 25;
+            std::set<std::string> seen;
+            for (int k = 0; k < attempts; ++k) {
+                if (!after.empty()) for (const auto& h : split_str(after, '|')) {      // the files this process had handled before
+                    auto hp = split_str(h, ';'); if (hp.size() < 3) continue;
+                    cycle(load_case(hp[0], hp[1].substr(4)), opt_parse(hp[2].substr(4)));
+                }
+                DataSet d = load_case(name, sel);
+                Outcome r = cycle(d, o);
+                if (r.outside_domain || r.kind == Outcome::ok) continue;
+                const std::string key = outcome_key(d, o, r) + (after.empty() ? "" : AFTER);
+                if (seen.insert(key).second) V.report(key, "options: " + opt_human(o) + " | data set " + name + " objects " + sel + " | " + r.detail, spec);
             }
-            DataSet d = load(name, sel);
-            Outcome r = cycle(d, o);
-            if (r.outside_domain || r.kind == Outcome::ok) return;
-            V.report(outcome_key(d, o, r) + (after.empty() ? "" : AFTER), "options: " + opt_human(o) + " | data set " + name + " objects " + sel + " | " + r.detail, spec);
         },
         [&](uint64_t, const std::string& what, const std::string& err) { on_child_death(name, o, what, err); }, iso);
 }
 
 int main(int argc, char** argv) {
     Args a = benum::parse_args(argc, argv);
+    g_current = static_cast<char*>(mmap(nullptr, 8192, PROT_READ | PROT_WRITE, MAP_SHARED | MAP_ANONYMOUS, -1, 0));
+    if (g_current == MAP_FAILED) g_current = nullptr;
     make_dir();
     if (a.replay) { replay(a, a.replay_spec); cleanup_dir(); return 0; }
     std::string part;
